@@ -569,6 +569,12 @@ PROPS["C20"] = {
     "assumptions": ["start indices >= 1 (Color BASIC raises ?FC ERROR below 1)"],
 }
 
+# C20 also depends on how the tool calls the helpers: the b09 suite's real outputs are judged by the aliasing rule
+PROPS["C20"]["suites"].append({"name": "b09", "relevant": b09_any, "oracle": OB.c20_alias, "classify": OB.c20_alias_classify})
+PROPS["C20"]["lean_extra"] = list(PROPS["C20"]["lean_extra"]) + B09_LEAN_EXTRA
+B09_ORACLES["C20"] = OB.c20_alias
+PROPS["C03"]["suites"].append({"name": "b09", "relevant": b09_any, "oracle": OB.c20_alias, "classify": OB.c20_alias_classify})
+
 
 # --------------------------------------------------------------------------- witnesses / replay
 
